@@ -252,7 +252,8 @@ def run(ctx):
         dets = [x.idx for x in manager_calls(h, MANAGER_DETACH)]
         for what, bbs in (('users -= 1', subs), ('size -= 1', decs), ('Manager::detach', dets)):
             esc = han.reach([0], ('normal',), avoid=bbs)
-            ok = len(bbs) == 1 and not any(e in esc for e in rets) and not in_cycle(han, bbs[0])
+            twice = [x for x in bbs for y in bbs if (x != y and y in han.reach_after(x, ('normal',))) or in_cycle(han, x)]
+            ok = len(bbs) >= 1 and not any(e in esc for e in rets) and not twice
             ctx.ob('R09.2', 'take: %s exactly once on every path' % what, ok, ctx.where(h), '%d site(s)' % len(bbs), construct='take:' + what)
     # take returns the inner value it detached
     rets = [s for blk in tk.blocks for s in blk.stmts if s.kind == 'assign' and s.place.local == 0 and s.place.is_local()]
